@@ -407,6 +407,9 @@ SECTION_PROPS["extract_catalogsrc"] = ["C20"]
 from extract_argsgen import argsgen_section  # noqa: E402  (M5 tie: ArgsGen.lean / Properties/ArgsTie.lean)
 EXTRA_SECTIONS.append(argsgen_section)
 SECTION_PROPS["extract_argsgen"] = ["C07"]
+from extract_provgen import provgen_section  # noqa: E402  (M7 tie: ProvGen.lean / Properties/ProvTie.lean)
+EXTRA_SECTIONS.append(provgen_section)
+SECTION_PROPS["extract_provgen"] = ["C18"]
 
 
 def main(write: bool = True) -> int:
